@@ -22,7 +22,7 @@ VARIABLES pc,          \* [Thr -> 1..]   next operation of each thread
 mcvars == <<cell, flav, pc, seen, hist, init0>>
 
 Two(b) == 2 ^ b
-Vals == {VFromNat(n) : n \in 0..(Two(Bits) - 1)}
+Vals == IF Bits <= 8 THEN {VFromNat(n) : n \in 0..(Two(Bits) - 1)} ELSE {}    \* (TLC evaluates constant definitions eagerly)
 
 (* ---- operator definitions against native arithmetic *)
 NatBitwise(op, x, y) ==
@@ -62,8 +62,8 @@ Prog(t) ==
       [] Family = "xor" -> <<F("xor", t + 1), F("xor", Two(Bits) - 1), F("xor", t + 1)>>
       [] Family = "once" -> <<C(0, t + 1), Ld(1)>>
       [] Family = "xchg" -> <<X(2 * t + 1), X(2 * t + 2)>>
-      [] Family = "mixed" -> IF t = 0 THEN <<St(1, 5), F2("add", 1), Ld(2), C(5, 6)>>
-                             ELSE IF t = 1 THEN <<F("or", 2), F2("sub", 1), X(7), Ld(1)>>
+      [] Family = "mixed" -> IF t = 0 THEN <<St(1, 5), F2("add", 1), C(5, 6)>>
+                             ELSE IF t = 1 THEN <<F("or", 2), X(7), Ld(2)>>
                              ELSE <<Ld(1), CA(1), St(2, 3)>>
 
 Running(t) == pc[t] <= Len(Prog(t))
